@@ -1,6 +1,7 @@
 package main
 
 import (
+	"reflect"
 	"fmt"
 	"go/types"
 	"strings"
@@ -244,36 +245,8 @@ func (fg *FG) call0(st *State, cc *ssa.CallCommon, in ssa.Instruction, resultOf 
 			env.vars[n] = fg.pureFuncArg(st, args[i], label)
 		}
 	}
-	// proof steps of the caller's contract attached to this callee
-	if fg.c != nil && fg.c.Before != nil {
-		steps := fg.c.Before[c.Key]
-		if len(steps) > 0 {
-			fg.beforeHit[c.Key] = true
-		}
-		if len(steps) == 0 {
-			// allow the unqualified key for same-package callees
-			steps = fg.c.Before[strings.TrimPrefix(c.Key, fg.c.Pkg+".")]
-			if len(steps) > 0 {
-				fg.beforeHit[strings.TrimPrefix(c.Key, fg.c.Pkg+".")] = true
-			}
-		}
-		if len(steps) > 0 {
-			benv := env.child()
-			for n, v := range fg.params {
-				if _, clash := benv.vars[n]; !clash {
-					benv.vars[n] = v
-				}
-			}
-			benv.old = fg.entrySt
-			if in != nil && in.Block() != nil {
-				benv.local = fg.localResolverAt(in.Block(), in.Block(), st)
-			}
-			for k, sc := range steps {
-				t := benv.tr(sc.E)
-				fg.oblig("assert", fmt.Sprintf("assert:before:%s#%s@%s", c.Key, clauseName(sc, k), label), sc.Tag, fg.guard(), t.T, sc.Src, fmt.Sprintf("%s:%d", sc.File, sc.Line))
-			}
-		}
-	}
+	fg.beforeCall(st, c, env, in, label)
+	fg.typeFacts(c, env, in, label)
 	// preconditions
 	for k, r := range c.Requires {
 		t := env.tr(r.E)
@@ -289,6 +262,7 @@ func (fg *FG) call0(st *State, cc *ssa.CallCommon, in ssa.Instruction, resultOf 
 		fg.assume(fmt.Sprintf("(>= %s %s)", na, a))
 	}
 	fg.applyModifies(st, c, env, in)
+	fg.forgetLastSel(st)
 	// results
 	rnames := resultNames(c, sig)
 	var results []Val
@@ -530,6 +504,118 @@ func shortTypeBase(t types.Type) string {
 	return shortTypeName(t)
 }
 
+// typeFacts checks the static type facts an (assumed) contract presumes, where the contract is used.
+// plainjson T: encoding/json transmits every field of struct T unconditionally - all fields exported,
+// no "-", "omitempty", "omitzero" or "string" tag options, recursively for struct-typed fields - which
+// is what makes "Unmarshal(Marshal(v)) yields v, whatever the target held before" true for T.
+func (fg *FG) typeFacts(c *Contract, env *Env, in ssa.Instruction, label string) {
+	for _, tf := range c.TypeFacts {
+		t, _ := env.resolveType(tf[1])
+		why := ""
+		if t == nil {
+			why = "cannot resolve type"
+		} else {
+			why = plainJSON(t, map[types.Type]bool{})
+		}
+		goal := "true"
+		src := fmt.Sprintf("typefact %s %s", tf[0], tf[1])
+		if why != "" {
+			goal = "false"
+			src += ": " + why
+		}
+		fg.oblig("pre", fmt.Sprintf("pre:%s#typefact.%s.%s@%s", c.Key, tf[0], sanitize(tf[1]), label), "", fg.guard(), goal, src, fg.posOf(instrPos(in)))
+	}
+}
+
+func plainJSON(t types.Type, seen map[types.Type]bool) string {
+	if seen[t] {
+		return ""
+	}
+	seen[t] = true
+	// a type with its own MarshalJSON (time.Time, ...) is one opaque value
+	for _, mt := range []types.Type{t, types.NewPointer(t)} {
+		ms := types.NewMethodSet(mt)
+		for i := 0; i < ms.Len(); i++ {
+			if ms.At(i).Obj().Name() == "MarshalJSON" {
+				return ""
+			}
+		}
+	}
+	switch u := types.Unalias(t).Underlying().(type) {
+	case *types.Pointer:
+		return plainJSON(u.Elem(), seen)
+	case *types.Slice:
+		return plainJSON(u.Elem(), seen)
+	case *types.Array:
+		return plainJSON(u.Elem(), seen)
+	case *types.Map:
+		return plainJSON(u.Elem(), seen)
+	case *types.Struct:
+		names := map[string]bool{}
+		for i := 0; i < u.NumFields(); i++ {
+			f := u.Field(i)
+			jn := strings.Split(reflect.StructTag(u.Tag(i)).Get("json"), ",")[0]
+			if jn == "" {
+				jn = f.Name()
+			}
+			if names[strings.ToLower(jn)] {
+				return fmt.Sprintf("two fields of %s share the json name %q", t, jn)
+			}
+			names[strings.ToLower(jn)] = true
+			if !f.Exported() {
+				return fmt.Sprintf("field %s of %s is not exported (not transmitted)", f.Name(), t)
+			}
+			tag := reflect.StructTag(u.Tag(i)).Get("json")
+			parts := strings.Split(tag, ",")
+			if parts[0] == "-" && len(parts) == 1 {
+				return fmt.Sprintf("field %s of %s is excluded by its json tag", f.Name(), t)
+			}
+			for _, o := range parts[1:] {
+				if o == "omitempty" || o == "omitzero" || o == "string" {
+					return fmt.Sprintf("field %s of %s has the json option %q", f.Name(), t, o)
+				}
+			}
+			if w := plainJSON(f.Type(), seen); w != "" {
+				return w
+			}
+		}
+	}
+	return ""
+}
+
+// beforeCall checks the "before <callee> assert" steps of the caller's contract attached to callee c.
+func (fg *FG) beforeCall(st *State, c *Contract, env *Env, in ssa.Instruction, label string) {
+	if fg.c != nil && fg.c.Before != nil {
+		steps := fg.c.Before[c.Key]
+		if len(steps) > 0 {
+			fg.beforeHit[c.Key] = true
+		}
+		if len(steps) == 0 {
+			// allow the unqualified key for same-package callees
+			steps = fg.c.Before[strings.TrimPrefix(c.Key, fg.c.Pkg+".")]
+			if len(steps) > 0 {
+				fg.beforeHit[strings.TrimPrefix(c.Key, fg.c.Pkg+".")] = true
+			}
+		}
+		if len(steps) > 0 {
+			benv := env.child()
+			for n, v := range fg.params {
+				if _, clash := benv.vars[n]; !clash {
+					benv.vars[n] = v
+				}
+			}
+			benv.old = fg.entrySt
+			if in != nil && in.Block() != nil {
+				benv.local = fg.localResolverAt(in.Block(), in.Block(), st)
+			}
+			for k, sc := range steps {
+				t := benv.tr(sc.E)
+				fg.oblig("assert", fmt.Sprintf("assert:before:%s#%s@%s", c.Key, clauseName(sc, k), label), sc.Tag, fg.guard(), t.T, sc.Src, fmt.Sprintf("%s:%d", sc.File, sc.Line))
+			}
+		}
+	}
+}
+
 // applyContract is the modular call rule for a given contract and argument list.
 func (fg *FG) applyContract(st *State, c *Contract, callee *ssa.Function, sig *types.Signature, args []Val, in ssa.Instruction, extra map[string]Val) []Val {
 	names := fg.paramNames(c, callee, sig, false)
@@ -551,6 +637,8 @@ func (fg *FG) applyContract(st *State, c *Contract, callee *ssa.Function, sig *t
 		env.vars[k] = v
 	}
 	label := fg.instrLabel(in)
+	fg.beforeCall(st, c, env, in, label)
+	fg.typeFacts(c, env, in, label)
 	for k, r := range c.Requires {
 		t := env.tr(r.E)
 		nm := fmt.Sprintf("pre:%s#%s@%s", c.Key, clauseName(r, k), label)
@@ -561,6 +649,7 @@ func (fg *FG) applyContract(st *State, c *Contract, callee *ssa.Function, sig *t
 	na := fg.havocHeap(st, "$alloc")
 	fg.assume(fmt.Sprintf("(>= %s %s)", na, a))
 	fg.applyModifies(st, c, env, in)
+	fg.forgetLastSel(st)
 	rnames := resultNames(c, sig)
 	var results []Val
 	for i := 0; i < sig.Results().Len(); i++ {
